@@ -9,8 +9,19 @@ use std::time::Duration;
 use jobs::*;
 use nvh::*;
 
+/// `--jobs a,b,c` restricts the generator to those jobs of the catalogue (used by the properties that
+/// register this component for a family of jobs, e.g. the side-input jobs under C11)
+fn job_filter() -> Vec<&'static str> {
+    let args: Vec<String> = std::env::args().collect();
+    match args.iter().position(|a| a == "--jobs").and_then(|p| args.get(p + 1)) {
+        Some(list) => JOBS.iter().copied().filter(|j| list.split(',').any(|x| x == *j)).collect(),
+        None => JOBS.to_vec(),
+    }
+}
+
 fn gen(rng: &mut Rng, i: usize) -> Case {
-    let job = JOBS[(i + rng.below(3) as usize) % JOBS.len()];
+    let jobs = job_filter();
+    let job = jobs[(i + rng.below(3) as usize) % jobs.len()];
     // sizes: empty, tiny, around one batch, far above capacity (16 batches) with tiny batches
     let bm = *rng.pick(BMS);
     let n: i64 = match rng.below(6) {
